@@ -229,7 +229,9 @@ REGISTRY = {
         'level_text': 'Stash discipline of HttpParser per phase, for every stash and every new data: the first line and the header block '
                       'are searched in stash + data, an incomplete unit is kept whole without error, a complete one is consumed from the '
                       'front; identity bodies by an additive arithmetic contract; chunked bodies consume a chunk only when size line, '
-                      'payload and CRLF are present. The Lean lemma Seg.segmentation_invariant turns the per-step facts into equality '
+                      'payload and CRLF are present; across all phases and any number of iterations of execute() the unconsumed bytes stay a '
+                      'suffix of stash + data (loop invariant: nothing lost, repeated or reordered); _parse_firstline signals a rejected '
+                      'line through errno. The Lean lemma Seg.segmentation_invariant turns the per-step facts into equality '
                       'for all segmentations. Grammar functions are opaque (bounded purity/segmentation stand-in, labelled).',
         'level_note': 'trusted: correspondence between the Lean step and the loop body; unicode_escape/urlsplit/regex grammar opaque; '
                       'web/http.py and protocols/http.py callers use the parser through its contract (C14).',
